@@ -23,8 +23,9 @@ fn predicted_secs(limits: &[(usize, u64)], calls: usize) -> f64 {
 
 fn pr_strategy(max_secs: f64) -> impl Strategy<Value = PrCase> {
 	let limit = (1u64..=10).prop_flat_map(|p| (prop_oneof![2 => 1usize..=20, 2 => (p as usize)..=20], Just(p)));
-	// limits whose number is in the hundreds (the request log must remember that many requests): a burst of n + 5..40 calls
-	let large = (prop_oneof![100usize..=400, proptest::sample::select(vec![127usize, 128, 129, 255, 256, 257])], 2u64..=5, 5usize..=40).prop_map(|(n, p, extra)| PrCase { limits: vec![(n, p)], sleeps_ms: vec![0; n + extra] });
+	// limits whose number is above a hundred (the request log must remember that many requests)
+	// (the limiter never admits more than about ten calls a second, so such a limit only binds over a period of tens of seconds)
+	let large = (prop_oneof![110usize..=180, proptest::sample::select(vec![127usize, 128, 129, 130])], 22u64..=30, 3usize..=8).prop_map(|(n, p, extra)| PrCase { limits: vec![(n, p)], sleeps_ms: vec![0; n + extra] });
 	let small = (proptest::collection::vec(limit, 1..=3), 10usize..=80, prop_oneof![Just(0u8), Just(1u8), Just(2u8)], 0u64..400, 1usize..8).prop_map(move |(limits, calls, pattern, gap, burst)| {
 		let mut calls = calls;
 		let n_min = limits.iter().map(|l| l.0).min().unwrap();
@@ -285,7 +286,7 @@ fn exec_bb(case: &BbCase) -> Outcome {
 }
 
 pub fn run(ctx: &Ctx, rep: &mut Report) {
-	rep.rule = "pr: limit sets (1..3 limits, n in 1..20, period 1..10 s; one case in eight a single limit with n in 100..400 and a burst of n+5..n+40 calls) and arrival patterns (burst after idle, steady, on/off) of 10..80 calls to the daemon's limiter in the probe, which reports the monotonic instant before each call and after each return. Sound bracket: for every limit (n,p) and i, return[i+n] - call[i] >= p. Bounded liveness: each return <= (earliest instant the limits permit given the earlier returns) + max(3 s, p_max). bb: 1..4 certificates on one rate-limited endpoint (half of the cases with a tight limit of 1..3 requests per 1..2 s, where a single unaccounted request shows), retry storms (runs of badNonce answers, of requests left unanswered, or of 503 answers), long polls, a second life of the daemon in which the CA refuses a key roll-over 1..3 times, and the CA forgetting the account at the k-th newOrder (re-registration goes through the same limiter) (in-attempt waits are 0 under the feature, so the limiter is the only brake): arrival times of ALL requests at the CA satisfy arr[i+n]-arr[i] >= p - 250 ms and every issuance completes. A failing timing case is re-run twice before it counts. Non-trivial = the pattern demands more than n calls within p (pr) / some window was within 400 ms of the limit (bb).".into();
+	rep.rule = "pr: limit sets (1..3 limits, n in 1..20, period 1..10 s; one case in eight a single limit with n in 110..180 per 22..30 s and a burst of n+3..n+8 calls) and arrival patterns (burst after idle, steady, on/off) of 10..80 calls to the daemon's limiter in the probe, which reports the monotonic instant before each call and after each return. Sound bracket: for every limit (n,p) and i, return[i+n] - call[i] >= p. Bounded liveness: each return <= (earliest instant the limits permit given the earlier returns) + max(3 s, p_max). bb: 1..4 certificates on one rate-limited endpoint (half of the cases with a tight limit of 1..3 requests per 1..2 s, where a single unaccounted request shows), retry storms (runs of badNonce answers, of requests left unanswered, or of 503 answers), long polls, a second life of the daemon in which the CA refuses a key roll-over 1..3 times, and the CA forgetting the account at the k-th newOrder (re-registration goes through the same limiter) (in-attempt waits are 0 under the feature, so the limiter is the only brake): arrival times of ALL requests at the CA satisfy arr[i+n]-arr[i] >= p - 250 ms and every issuance completes. A failing timing case is re-run twice before it counts. Non-trivial = the pattern demands more than n calls within p (pr) / some window was within 400 ms of the limit (bb).".into();
 	rep.assume("black-box bound has 250 ms slack for send latency; the tight bound is the in-crate one");
 	run_replays::<PrCase>(ctx, rep, "pr", &exec_pr);
 	run_replays::<BbCase>(ctx, rep, "bb", &exec_bb);
